@@ -182,6 +182,30 @@ class SchedLock:
         self.release()
 
 
+def _locks_of(ws):
+    """(owner, attribute, path) of every lock object reachable from the WebSocket object in at most two attribute steps -
+    found by what they ARE, not by what the attributes are called"""
+    def is_lock(v):
+        return hasattr(v, "acquire") and hasattr(v, "release") and not hasattr(v, "wait") and not hasattr(v, "notify")
+    out = []
+    for k, v in list(vars(ws).items()):
+        if is_lock(v):
+            out.append((ws, k, k))
+        elif (getattr(type(v), "__module__", "") or "").startswith("websocket") and isinstance(getattr(v, "__dict__", None), dict):
+            for k2, v2 in list(vars(v).items()):
+                if is_lock(v2):
+                    out.append((v, k2, k + "." + k2))
+    return out
+
+
+def swap_locks(ws, make):
+    n = 0
+    for owner, attr, path in _locks_of(ws):
+        setattr(owner, attr, make(path))
+        n += 1
+    return n
+
+
 def w_lockfail(sock_timeout):
     """if the send path acquires its lock with a timeout and the acquisition FAILS (another sender holds it), the call must
     neither write a byte nor release the lock it does not hold"""
@@ -190,22 +214,26 @@ def w_lockfail(sock_timeout):
     sock = TraceSock(trace)
     sock.timeout = sock_timeout
     ws = new_ws(sock, get_mask_key=KeySource([bytes(4)] * 4))
-    ws.sock_opt.timeout = sock_timeout
-    ws.lock = RecLock("L", trace, fail_timed=True)
+    ws.settimeout(sock_timeout)
+    swap_locks(ws, lambda path: RecLock(path, trace, fail_timed=True))
     try:
         ws.send_binary(b"ab")
     except (sx.Control, sx.ConcreteFailure, sx.ReplayMismatch):
         raise
     except Exception:
         pass
-    if ("acq-failed", "L") in trace:
-        i = trace.index(("acq-failed", "L"))
+    failed = [ev for ev in trace if ev[0] == "acq-failed"]
+    if failed:
+        i = trace.index(failed[0])
+        L = failed[0][1]
         sx.require(("w",) not in trace[i:], "a sender that failed to get the send lock writes nothing", timeout=str(sock_timeout))
-        sx.require(("rel", "L") not in trace[i:], "a sender that failed to get the send lock does not release it (it is held by another sender)",
+        sx.require(("rel", L) not in trace[i:], "a sender that failed to get the send lock does not release it (it is held by another sender)",
                    timeout=str(sock_timeout))
         cover("timed-acquire")
     else:
-        sx.require(("acq", "L") in trace and ("rel", "L") in trace, "send lock taken and released around the writes")
+        held = [ev[1] for ev in trace if ev[0] == "acq"]
+        sx.require(len(held) >= 1 and all(("rel", L) in trace for L in held) and ("w",) in trace,
+                   "send lock taken and released around the writes")
         cover("untimed-acquire")
 
 
@@ -213,7 +241,7 @@ def _extract_send_trace(payload, key, accept):
     trace = []
     sock = TraceSock(trace, accept=list(accept))
     ws = new_ws(sock, get_mask_key=KeySource([key]))
-    ws.lock = RecLock("L", trace)
+    swap_locks(ws, lambda path: RecLock(path, trace))
     ws.send_binary(payload)
     return trace, sock.wire()
 
@@ -284,7 +312,7 @@ def w_order_send(t, n, nwrites):
     sock.accepts = {tid: list(pats[tid]) for tid in range(t)}
     kq = {tid: [keys[tid]] for tid in range(t)}
     ws = new_ws(sock, get_mask_key=lambda k: kq[tid_of()].pop(0))
-    ws.lock = SchedLock("L", sched, tid_of) if hasattr(ws.lock, "acquire") else ws.lock
+    swap_locks(ws, lambda path: SchedLock(path, sched, tid_of))
     errs = []
 
     def run(tid):
@@ -311,9 +339,7 @@ def _extract_pong_trace(accept):
     trace = []
     sock = TraceSock(trace, incoming=[server_frame(1, 9, b"pp"), "eof"], accept=list(accept))
     ws = new_ws(sock, get_mask_key=KeySource([bytes([9, 9, 9, 9])]))
-    ws.lock = RecLock("L", trace)
-    ws.readlock = RecLock("R", trace)
-    ws.frame_buffer.lock = RecLock("F", trace)
+    swap_locks(ws, lambda path: RecLock(path, trace))
     ws.recv_data(True)
     return trace, sock.wire()
 
@@ -378,11 +404,7 @@ def w_order_mixed(nwrites):
     sock.accepts = {0: list(acc_a), 1: list(acc_b)}
     kq = {0: [key_a], 1: [bytes([9, 9, 9, 9])]}
     ws = new_ws(sock, get_mask_key=lambda k: kq[tid_of()].pop(0))
-    if hasattr(ws.lock, "acquire"):
-        ws.lock = SchedLock("L", sched, tid_of)
-    if hasattr(ws.readlock, "acquire"):
-        ws.readlock = SchedLock("R", sched, tid_of)
-    ws.frame_buffer.lock = SchedLock("F", sched, tid_of)
+    swap_locks(ws, lambda path: SchedLock(path, sched, tid_of))
     errs = []
 
     def run(tid):
@@ -416,11 +438,10 @@ def _extract_recv_trace():
     stream = server_frame(0, 1, b"a") + server_frame(1, 0, b"b")
     sock = TraceSock(trace, incoming=[stream, "eof"])
     ws = new_ws(sock)
-    ws.readlock = RecLock("R", trace)
-    ws.frame_buffer.lock = RecLock("F", trace)
-    cf = ws.cont_frame
+    swap_locks(ws, lambda path: RecLock(path, trace))
+    cf = sx.unit(ws, "cont_frame")
     for nm in ("validate", "add", "extract"):
-        orig = getattr(cf, nm)
+        orig = sx.unit(cf, nm)
 
         def wrap(*a, _o=orig, _n=nm):
             trace.append(("cf", _n))
@@ -473,12 +494,10 @@ def w_order_recv(t):
 
     sock = SSock([stream, "eof"])
     ws = new_ws(sock)
-    if hasattr(ws.readlock, "acquire"):
-        ws.readlock = SchedLock("R", sched, tid_of)
-    ws.frame_buffer.lock = SchedLock("F", sched, tid_of)
-    cf = ws.cont_frame
+    swap_locks(ws, lambda path: SchedLock(path, sched, tid_of))
+    cf = sx.unit(ws, "cont_frame")
     for nm in ("validate", "add", "extract"):
-        orig = getattr(cf, nm)
+        orig = sx.unit(cf, nm)
 
         def wrap(*a, _o=orig):
             sched.step(tid_of())
